@@ -110,6 +110,10 @@ type Res struct {
 	Err string `json:"err"`           // error class, "ok" when nil
 	Val string `json:"val,omitempty"` // canonical rendering of the returned values
 	Raw string `json:"raw,omitempty"` // raw error text (never compared)
+	// Perm reports errors.Is(err, fs.ErrPermission); Exist / NotExist likewise. Err keeps the error value for monitors
+	// that must compare identities (never serialised).
+	Perm bool  `json:"perm,omitempty"`
+	E    error `json:"-"`
 }
 
 func (r Res) String() string {
@@ -276,12 +280,20 @@ func (e *Env) Exec(o Op) (r Res) {
 }
 
 func res(err error, val string) Res {
-	r := Res{Err: ErrClass(err)}
+	r := Res{Err: ErrClass(err), E: err}
 	if err != nil {
 		r.Raw = err.Error()
+		r.Perm = errors.Is(err, fs.ErrPermission)
 	} else {
 		r.Val = val
 	}
+	return r
+}
+
+// resv is res for calls whose values are meaningful even when an error is returned (Read, Write, ...).
+func resv(err error, val string) Res {
+	r := res(err, val)
+	r.Val = val
 	return r
 }
 
@@ -491,40 +503,20 @@ func (e *Env) execFile(o Op) Res {
 	case "F.Read":
 		b := make([]byte, o.N)
 		n, err := f.Read(b)
-		r := Res{Err: ErrClass(err), Val: fmt.Sprintf("n=%d %s", n, dataStr(b[:max0(n, len(b))]))}
-		if err != nil {
-			r.Raw = err.Error()
-		}
-		return r
+		return resv(err, fmt.Sprintf("n=%d %s", n, dataStr(b[:max0(n, len(b))])))
 	case "F.ReadAt":
 		b := make([]byte, o.N)
 		n, err := f.ReadAt(b, o.M)
-		r := Res{Err: ErrClass(err), Val: fmt.Sprintf("n=%d %s", n, dataStr(b[:max0(n, len(b))]))}
-		if err != nil {
-			r.Raw = err.Error()
-		}
-		return r
+		return resv(err, fmt.Sprintf("n=%d %s", n, dataStr(b[:max0(n, len(b))])))
 	case "F.Write":
 		n, err := f.Write([]byte(o.Data))
-		r := Res{Err: ErrClass(err), Val: fmt.Sprintf("n=%d", n)}
-		if err != nil {
-			r.Raw = err.Error()
-		}
-		return r
+		return resv(err, fmt.Sprintf("n=%d", n))
 	case "F.WriteString":
 		n, err := f.WriteString(o.Data)
-		r := Res{Err: ErrClass(err), Val: fmt.Sprintf("n=%d", n)}
-		if err != nil {
-			r.Raw = err.Error()
-		}
-		return r
+		return resv(err, fmt.Sprintf("n=%d", n))
 	case "F.WriteAt":
 		n, err := f.WriteAt([]byte(o.Data), o.N)
-		r := Res{Err: ErrClass(err), Val: fmt.Sprintf("n=%d", n)}
-		if err != nil {
-			r.Raw = err.Error()
-		}
-		return r
+		return resv(err, fmt.Sprintf("n=%d", n))
 	case "F.Seek":
 		p, err := f.Seek(o.N, int(o.M))
 		if err != nil {
@@ -552,19 +544,11 @@ func (e *Env) execFile(o Op) Res {
 	case "F.ReadDir":
 		es, err := f.ReadDir(int(o.N))
 		sort.Slice(es, func(i, j int) bool { return es[i].Name() < es[j].Name() })
-		r := Res{Err: ErrClass(err), Val: entriesStr(es)}
-		if err != nil {
-			r.Raw = err.Error()
-		}
-		return r
+		return resv(err, entriesStr(es))
 	case "F.Readdirnames":
 		ns, err := f.Readdirnames(int(o.N))
 		sort.Strings(ns)
-		r := Res{Err: ErrClass(err), Val: "[" + strings.Join(ns, " ") + "]"}
-		if err != nil {
-			r.Raw = err.Error()
-		}
-		return r
+		return resv(err, "["+strings.Join(ns, " ")+"]")
 	}
 	return Res{Err: "harness:unknown-op " + o.K}
 }
